@@ -356,7 +356,7 @@ def scan_thread_shared_set_rule(P, rep, rid):
         m_ = shared[0]
         g, c = looks[m_][0]
         rep.fail(rid, 'per-disk set `%s`' % m_, c.loc(), 'every scan thread looks `%s` up on all the disks of the array (%s, line %s) while the thread of each disk removes and inserts entries in it (%s): the answer depends on which thread runs first -- a file copied from a disk whose old version is being replaced is a "copy" (hashes inherited, REP blocks) or an "add" for the same input' % (
-            m_, base(g.name), c.line, ', '.join(sorted({'%s:%s' % (base(x[0].name), x[1].line) for x in muts[m_]}))), function=base(g.name), construct='%s looked up across disks in the threaded phase' % m_)
+            m_, base(g.name), c.line, ', '.join(sorted({'%s:%s' % (base(x[0].name), x[1].line) for x in muts[m_]}))), function='state_diffscan', construct='%s looked up across disks in the threaded phase' % m_)
     else:
         rep.ok(rid, 'sets modified by the scan threads (%s) are not looked up across disks' % sorted(muts))
 
